@@ -295,8 +295,18 @@ func init() {
 			Old: "\t\tif PlainWritePause > time.Since(s.lastPlainWrite) {\n\t\t\ts.resetSilenceTimer(false)\n\t\t\treturn\n\t\t}\n", New: "",
 			Expect: "unmute-guard", Why: "un-mutes during a flood"},
 		Mutant{Property: "C19", Name: "forget-timer-on-mute", File: fOps,
-			Old: "\t\t\ts.silenced = true\n\t\t\ts.resetSilenceTimer(true)\n", New: "\t\t\ts.silenced = true\n",
+			Old: "\t\t\t\ts.silenced = true\n\t\t\t\ts.resetSilenceTimer(true)\n", New: "\t\t\t\ts.silenced = true\n",
 			Expect: "timer-armed", Why: "muted forever"},
+
+		Mutant{Property: "C19", Name: "lock-under-terminal-lock", File: fOps,
+			Old: "\t\t\tgo func() {\n\t\t\t\ts.wL.Lock()\n\t\t\t\tdefer s.wL.Unlock()\n\t\t\t\t/* Don't double-pause. */", New: "\t\t\tfunc() {\n\t\t\t\ts.wL.Lock()\n\t\t\t\tdefer s.wL.Unlock()\n\t\t\t\t/* Don't double-pause. */",
+			Expect: "lock-order", Why: "the original deadlock: Shell.wL taken under the terminal's lock"},
+		Mutant{Property: "C19", Name: "ctrl-j-through-writePlain", File: "lib/opshell/insert.go",
+			Old: "\t\t\"Would have sent the following %d bytes:\\n%s\",\n\t\tlen(b),\n\t\tb,\n\t)\n", New: "\t\t\"Would have sent the following %d bytes:\",\n\t\tlen(b),\n\t)\n\ts.writePlain(string(b))\n",
+			Expect: "who-is-muted", Why: "local text goes through the mute-aware path"},
+		Mutant{Property: "C19", Name: "benign-named-method", File: fOps,
+			Old: "\t\t\tgo func() {\n\t\t\t\ts.wL.Lock()\n\t\t\t\tdefer s.wL.Unlock()\n\t\t\t\t/* Don't double-pause. */", New: "\t\t\tgo func() {\n\t\t\t\ts.wL.Lock()\n\t\t\t\tdefer s.wL.Unlock()\n\t\t\t\t/* Do not pause twice. */",
+			Expect: "", Why: "comment change only"},
 
 		/* C20 */
 		Mutant{Property: "C20", Name: "use-before-check", File: fMain, Quick: true,
@@ -312,5 +322,37 @@ func init() {
 		Mutant{Property: "C20", Name: "new-error-without-cleanup", File: fOps,
 			Old: "\tif err := s.resize(); nil != err {\n\t\tcleanup()\n", New: "\tif err := s.resize(); nil != err {\n",
 			Expect: "restoration-not-bypassed", Why: "TTY left open on New's error path"},
+
+		/* Rules added after the second round of seeded changes. */
+		Mutant{Property: "C01", Name: "shutdown-flag-elsewhere", File: fIob,
+			Old: "\t\tb.mu.Lock()\n\t\tb.noMore = true\n\t\tb.mu.Unlock()\n\t\t/* Wait for connections to finish. */\n", New: "\t\tgo func() { b.mu.Lock(); b.noMore = true; b.mu.Unlock() }()\n\t\t/* Wait for connections to finish. */\n",
+			Expect: "shutdown-flag", Why: "the flag is set by another goroutine, so Wait may return before it"},
+		Mutant{Property: "C01", Name: "benign-shutdown-defer-unlock", File: fIob,
+			Old: "\t\tb.mu.Lock()\n\t\tb.noMore = true\n\t\tb.mu.Unlock()\n\t\t/* Wait for connections to finish. */\n", New: "\t\tfunc() { b.mu.Lock(); defer b.mu.Unlock(); b.noMore = true }()\n\t\t/* Wait for connections to finish. */\n",
+			Expect: "", Why: "same flag store, under the lock, before Wait"},
+		Mutant{Property: "C02", Name: "insert-via-copy", File: "lib/opshell/insert.go",
+			Old: "n, err := io.MultiWriter(ChanWriter(s.ich), her).Write(b)", New: "n64, err := io.Copy(io.MultiWriter(ChanWriter(s.ich), her), struct{ io.Reader }{bytes.NewReader(b)})\n\tn := int(n64)",
+			Edits:  [][3]string{{"lib/opshell/insert.go", "import (\n", "import (\n\t\"bytes\"\n"}},
+			Expect: "insert-one-entry", Why: "io.Copy splits a large payload into several entries"},
+		Mutant{Property: "C02", Name: "wrapped-writer-no-flusherror", File: fHand,
+			Old: "\t\tremoteHost(r),\n\t\tw,\n\t\tr.PathValue(idParam),", New: "\t\tremoteHost(r),\n\t\tstruct{ io.Writer }{w},\n\t\tr.PathValue(idParam),",
+			Edits:  [][3]string{{fHand, "import (\n", "import (\n\t\"io\"\n"}},
+			Expect: "transport-writer", Why: "the wrapper hides FlushError (and Flush): flush failures go unseen"},
+		Mutant{Property: "C03", Name: "shared-read-buffer", File: fIob,
+			Old: "\t\t\tbuf = make([]byte, 2048)\n", New: "\t\t\tbuf = sharedOutBuf[:]\n",
+			Edits:  [][3]string{{fIob, "// Broker handles I/O", "var sharedOutBuf [2048]byte\n\n// Broker handles I/O"}},
+			Expect: "buffer-per-stream", Why: "two generations of reader share one buffer"},
+		Mutant{Property: "C03", Name: "benign-bigger-buffer", File: fIob,
+			Old: "\t\t\tbuf = make([]byte, 2048)\n", New: "\t\t\tbuf = make([]byte, 4096)\n",
+			Expect: "", Why: "still a buffer of the stream's own"},
+		Mutant{Property: "C11", Name: "handler-refuses-silently", File: fHand,
+			Old: "func (s *Server) outputHandler(w http.ResponseWriter, r *http.Request) {\n", New: "func (s *Server) outputHandler(w http.ResponseWriter, r *http.Request) {\n\tif http.NoBody == r.Body {\n\t\treturn\n\t}\n",
+			Expect: "always-reaches-broker", Why: "a refusal with no record at all"},
+		Mutant{Property: "C11", Name: "benign-handler-refuses-with-record", File: fHand,
+			Old: "func (s *Server) outputHandler(w http.ResponseWriter, r *http.Request) {\n", New: "func (s *Server) outputHandler(w http.ResponseWriter, r *http.Request) {\n\tif http.NoBody == r.Body {\n\t\ts.requestLogger(r).Error(\"No body\")\n\t\treturn\n\t}\n",
+			Expect: "", Why: "the handler's own refusal has an error record"},
+		Mutant{Property: "C20", Name: "queued-report-before-exit", File: fMain,
+			Old: "\tif nil != err {\n\t\tshell.Logf(\n\t\t\topshell.ColorRed,\n\t\t\tfalse,\n\t\t\t\"Error setting up HTTPS service: %s\",\n\t\t\terr,\n\t\t)\n", New: "\tif nil != err {\n\t\tfunc(f string, v ...any) { och <- opshell.CLine{Color: opshell.ColorRed, Line: fmt.Sprintf(f, v...)} }(\n\t\t\t\"Error setting up HTTPS service: %s\",\n\t\t\terr,\n\t\t)\n",
+			Expect: "setup-steps-fatal", Why: "the message is queued where nothing will ever drain it"},
 	)
 }
